@@ -105,6 +105,11 @@ def escapes(p: Path, e: Event, *, value_kinds: Optional[Dict[str, str]] = None) 
                 why = f"{op}({a.key()[:50] if a is not None else ''}) on a possibly non-finite float"
         elif op == "builtins.float":
             continue
+        elif op in ("builtins.hex", "builtins.oct", "builtins.bin"):
+            a = operands[0] if operands else None
+            if a is not None and kind(a) in ("int", "bool", "index"):
+                continue
+            why = f"{op[9:]}() of {a.key()[:40] if a is not None else '?'} (kind {kind(a) if a is not None else None}): only ints have it"
         elif op == "order":
             a, b = operands
             ka, kb = kind(a), kind(b)
